@@ -116,6 +116,25 @@ def main_wrapper(fn, prop, argv=None):
     a = ap.parse_args(argv)
     ctx = Ctx(prop, a.tier, a.seed)
     ctx.replay_file = a.replay
+    if a.replay:
+        # re-run one recorded case: exit 1 if the disagreement is still there
+        data = json.load(open(a.replay))
+        mod = sys.modules.get(fn.__module__)
+        rp = getattr(mod, "replay", None)
+        print("replaying %s: %s" % (a.replay, data.get("signature")))
+        print("  " + str(data.get("description", "")).replace("\n", "\n  ")[:1500])
+        if rp is None:
+            print("(this check has no single-case replayer: run the check itself)")
+            sys.exit(2)
+        from harness import forkpool
+        try:
+            still = rp(ctx, data)
+        finally:
+            forkpool.shutdown()
+        print("REPRODUCED" if still else "not reproduced on this tree")
+        if still:
+            print("VIOLATION property=%s replay=%s" % (prop, a.replay))
+        sys.exit(1 if still else 0)
     from harness import forkpool
     try:
         fn(ctx)
